@@ -192,6 +192,7 @@ pub fn def() -> PropDef {
         needs_pairing: true,
         subs: vec![
             Box::new(crate::engine::EnumSub { name: "long-history", rule: super::longhist::RULE, run: run_long_history, replay: super::longhist::replay, exhaustive: false }),
+            Box::new(crate::engine::EnumSub { name: "two-input-bursts", rule: super::longhist::BURST_RULE, run: run_two_input_bursts, replay: super::longhist::replay_burst, exhaustive: false }),
             Box::new(Sub { name: "model-power", rule: "final_exponentiation(f) == f^(3(q^12-1)/r) by the model; None iff f = 0", quick: 400, thorough: 5000, strategy: || boxed(fein_strategy().prop_map(|f| PowCase { f })), check: check_power }),
             Box::new(Sub { name: "relations", rule: "multiplicative; image has order dividing r; proper subfields map to 1", quick: 3_000, thorough: 40_000, strategy: || boxed((fein_strategy(), fein_strategy()).prop_map(|(f, g)| RelCase { f, g })), check: check_relations }),
         ],
